@@ -79,14 +79,18 @@ def twin_run(name, n):
         s = Stream(asynchronous=True)
         node = PIPES[name][1](s)
         out = []
+        cur = [0]
 
         class Rec(Stream):
             def update(self, x, who=None, metadata=None):
-                out.append((freeze(x), sorted(set(aprobe.enc_md(metadata)))))
+                # lineage: the elements whose references travel with the value, and the element whose emission produced it
+                # (flatten passes the metadata on with the last piece only: the other pieces are that element's data all the same)
+                out.append((freeze(x), sorted(set(aprobe.enc_md(metadata)) | {cur[0]})))
                 return []
         rec = Rec(node)      # (downstreams are weak references: keep the node alive)
         tags = {e: {"tag": e, "ref": aprobe.RC(e, log)} for e in range(1, n + 1)}
         for e in range(1, n + 1):
+            cur[0] = e
             s.emit(e, metadata=[tags[e]])
         held = [e for e in tags if tags[e]["ref"].count > 0]
         del rec
